@@ -307,7 +307,7 @@ class World:
                             got = "<missing or unreadable>"
                         if got != decl:
                             self.v.append(("row_without_records", "%s: recorded version %s@%d: %s is %r, declared %r" % (what, task, ts, fname, got, decl)))
-                    elif os.path.exists(p):
+                    elif os.path.isfile(p):     # (a DIRECTORY of that name is the command's own doing, outcome argsdir)
                         self.v.append(("record_for_empty_declaration", "%s: %s@%d has %s although nothing is declared" % (what, task, ts, fname)))
             if key in self.known:
                 k = self.known[key]
